@@ -8,6 +8,7 @@ import J5V.Print.ScalarProofs
 import J5V.Print.ReparseMain
 import J5V.Print.Cover
 import J5V.Print.CoverLead
+import J5V.Print.ReparseLinks
 import J5V.Generated.PrintFacts
 /-!
 # C05 — generated .proto text re-parses to the descriptor it was printed from
@@ -359,7 +360,9 @@ theorem allSome_map {α β} (f : α → Option β) (g : α → β) :
     rw [allSome_map f g l (fun b hb => h b (by simp [hb]))]
     rfl
 
-/-- **Whole-file statement, partial.** For every reader that treats kernel outputs as assumed
+/-- **Whole-file statement, partial.** `Reader.spec` fixes `read` completely, so "for every reader" ranges over exactly
+one function (the specification itself, `specReader`): the theorem is the list lift of `C05_refname_resolves` and
+`C05_string_inv` over the occurrences of a file, stated against an explicit interface. For every reader that treats kernel outputs as assumed
 above: reading the printed file gives back every referenced type and every string value, provided
 each referenced type is declared. Partial because (i) the reader's grammar level is
 an assumption, (ii) comments, layout, element order, numeric scalars and option structure are outside this statement (order and
@@ -668,9 +671,10 @@ same element and does not ask the gap clause of an element with a leading commen
 a leading comment whatever the lines say). `C05_reprint_leading_subsumes`: every instance of the comment-free
 hypotheses is an instance of these. `C05_reprint_checked`: the same conclusion from the two *decidable* tests the
 driver evaluates on every `print.file` op — on the arranged summary of the real descriptor and on what the grammar
-model reads from the model's text (evidence `coverage.reprint_theorem_*`). That `Grammar.parseFile` reads a text
-with leading comments this way is, for all files, still validated (against protocompile, every op) and evaluated
-(per op, by these tests), not proved: `C05_reparse` has no comments yet. -/
+model reads from the model's text (evidence `coverage.reprint_theorem_*`). For the shape `SimpleFile` (leading comments
+included since Round 4) `C05_reparse` proves that `Grammar.parseFile` reads the text this way; for files outside that
+shape (options of files / oneofs / enum values, `extend` blocks) it is validated against protocompile on every op and
+evaluated per op by these tests. -/
 
 open Layout in
 theorem C05_reprint_fixed_leading (gen : String) (d d' : FileD) (hu : d.quietL) (hr : relaidFileL d.arranged d') :
@@ -735,6 +739,95 @@ example : leadEx.quietL ∧ relaidFileL leadEx.arranged leadRead :=
    Cover.relaidFileLB_sound leadEx_relaid⟩
 
 end lead_example
+
+/-! ## 7c. the reading links: `C05_reparse` composed with `C05_refname_resolves`
+
+`C05_reparse` is a parse-after-print identity on the rendered syntax tree (`FileD` holds type names, labels and option
+texts as strings). The property also speaks of *linking*. The composition below is the whole-file statement for type
+names: every type-name position of the parsed file holds the name the `RefName` kernel produced, and that name resolves
+to the symbol the descriptor points at. It holds for the shape `SimpleFile` (decidable, `Cover.simpleFileB`; measured
+coverage of the generated `print.file` ops: `coverage.reparse_theorem_fraction`, ≈ 70 %). -/
+
+/-- a type name as it is written -/
+def nameText (n : RefName.Name) : String := (if n.abs then "." else "") ++ ".".intercalate n.parts
+
+/-- what stands at a type-name position of the file: the name `refName` gives for a reference (`some r`), or
+something that is no reference (`none`: a scalar type, a map type, a `stream` type, the empty type of an enum value) -/
+def LinkSrc (T : RefName.Tab) (txt : String) : Option RefOcc → Prop
+  | none => True
+  | some r => txt = nameText (RefName.refName T r.ctxPkg r.ctx r.tgtPkg r.tgt)
+
+/-- … and what a reader finds there: the same name, which resolves — by the scope rules, from the scope it is written
+in — to the symbol the descriptor points at -/
+def Linked (T : RefName.Tab) (txt : String) : Option RefOcc → Prop
+  | none => True
+  | some r => txt = nameText (RefName.refName T r.ctxPkg r.ctx r.tgtPkg r.tgt) ∧
+      RefName.resolveName T r.ctxPkg r.ctx r.only (RefName.refName T r.ctxPkg r.ctx r.tgtPkg r.tgt) = some (r.tgtPkg ++ r.tgt)
+
+open Layout Grammar Reparse in
+/-- **The reading links.** `C05_reparse` is an identity on the printed syntax tree; composed with `C05_refname_resolves`:
+for a `SimpleFile` whose type names are, position by position (`typeTextsL`, zipped with `srcs`: field types in printed order, nested
+elements in place, request / response types of methods), the names the `RefName` kernel produced against the symbol
+table `T` for references `srcs` (`none` where the position holds no reference), the file the grammar model reads from the
+printed text carries exactly these names at the same positions, and each of them resolves under the scope rules to the
+symbol the descriptor points at. (Reading a name text back into components is splitting at dots — `Cover.tyParts`,
+`tyParts_sound` — and is not part of this statement; oneof membership, map key / value texts, labels and numbers are part
+of the tree `C05_reparse` returns.) -/
+theorem C05_reparse_links (gen : String) (d : FileD) (h : SimpleFile gen d.arranged) (T : RefName.Tab)
+    (srcs : List (Option RefOcc))
+    (hlen : (typeTextsL d.arranged.items).length = srcs.length)
+    (hsrc : ∀ p ∈ (typeTextsL d.arranged.items).zip srcs, LinkSrc T p.1 p.2)
+    (hwf : ∀ r, some r ∈ srcs → RefName.SymtabWF T r.only r.tgtPkg r.tgt) :
+    ∃ d', parseFile (printText gen d) = some d' ∧ (typeTextsL d'.items).length = srcs.length ∧
+      ∀ p ∈ (typeTextsL d'.items).zip srcs, Linked T p.1 p.2 := by
+  refine ⟨rdFile d.arranged, (C05_reparse gen d h).1, ?_⟩
+  rw [rdFile_typeTexts]
+  refine ⟨hlen, fun p hp => ?_⟩
+  have h1 := hsrc p hp
+  obtain ⟨txt, o⟩ := p
+  cases o with
+  | none => trivial
+  | some r =>
+    exact ⟨h1, C05_refname_resolves T r.only r.ctxPkg r.ctx r.tgtPkg r.tgt (hwf r (List.of_mem_zip hp).2)⟩
+
+section links_example
+open Layout Grammar Reparse
+
+def linkTab : RefName.Tab := ⟨[⟨["p", "M"], .msg⟩, ⟨["p", "M", "N"], .msg⟩], [["p"]]⟩
+def linkEx : FileD :=
+  ⟨Loc.none, "p", [], [], [],
+   [ .block "message" 1 Loc.none 0 "M" [] [ fld "" "N" "a" 1, fld "" "string" "b" 2, .block "message" 1 Loc.none 0 "N" [] [] ] ]⟩
+def linkSrcs : List (Option RefOcc) := [some ⟨true, ["p"], ["M"], ["p"], ["M", "N"]⟩, none]
+
+theorem linkEx_ok : SimpleFile "gen" linkEx.arranged := Cover.simpleFileB_sound "gen" linkEx.arranged (by decide)
+theorem linkEx_texts : typeTextsL linkEx.arranged.items = ["N", "string"] := by decide
+theorem linkEx_name : nameText (RefName.refName linkTab ["p"] ["M"] ["p"] ["M", "N"]) = "N" := by decide
+theorem linkTab_wf : RefName.SymtabWF linkTab true ["p"] ["M", "N"] := by
+  refine ⟨by simp, ⟨.msg, by decide, by decide⟩, ?_, ?_⟩
+  · intro j h1 h2
+    have : j = 1 := by simp at h2; omega
+    subst this; decide
+  · intro i h1 h2
+    have : i = 1 := by simp at h2; omega
+    subst this; decide
+
+/-- the message `M { N a = 1; string b = 2; message N {} }` of package `p`: the text `N` at the first position is what
+`refName` gives for the reference from `p.M` to `p.M.N`; the parsed file holds it there and it resolves to `p.M.N` -/
+example := C05_reparse_links "gen" linkEx linkEx_ok linkTab linkSrcs (by rw [linkEx_texts]; rfl)
+  (by
+    rw [linkEx_texts]
+    intro p hp
+    simp only [linkSrcs, List.zip_cons_cons, List.zip_nil_right, List.mem_cons, List.not_mem_nil, or_false] at hp
+    rcases hp with rfl | rfl
+    · exact linkEx_name.symm
+    · trivial)
+  (by
+    intro r hr
+    simp only [linkSrcs, List.mem_cons, Option.some.injEq, List.not_mem_nil, or_false, reduceCtorEq] at hr
+    subst hr
+    exact linkTab_wf)
+
+end links_example
 
 /-! ## 8. the printed text is a function of the descriptor (cited by C14)
 
